@@ -139,6 +139,9 @@ theorem tombstone_refused_at_rpc (s : St) (op : Op) : C14.TombstoneRefused (step
   | weight i l r mask => simp [stepOf, kindOf, C14.targetOf] at hk
   | rmtomb o mask => simp [stepOf, kindOf, C14.targetOf] at hk
   | region r st => simp [stepOf, kindOf, C14.targetOf] at hk
+  | labelsFrom r f mask => simp [stepOf, kindOf, C14.targetOf] at hk
+  | hbHandle i mask => simp [stepOf, kindOf, C14.targetOf] at hk
+  | checkOnly o mask => simp [stepOf, kindOf, C14.targetOf] at hk
 
 /-- **bury_only_empty.** Whenever an operation other than the direct call of `buryStore` turns a
     store into a tombstone, the store held no region peer when the operation started. -/
@@ -232,6 +235,9 @@ theorem success_stored_eq_served (s : St) (op : Op) (hinv : Inv s.served s.store
     | check o mask => simp [stepOf, kindOf] at hk
     | rmtomb o mask => simp [stepOf, kindOf] at hk
     | region r st => simp [stepOf, kindOf] at hk
+    | labelsFrom r f mask => simp [stepOf, kindOf] at hk
+    | hbHandle i mask => simp [stepOf, kindOf] at hk
+    | checkOnly o mask => simp [stepOf, kindOf] at hk
 
 /-- **failed_write_served_unchanged.** The served record and weights of a store whose write the
     storage refused are what they were before the operation; and an operation (other than the
